@@ -103,6 +103,7 @@ fn do_case(kvs: &[Kv], fr: Front, geom: Geom, full: bool, st: &mut Stats, rep: &
     st.evals += 1;
     match run_case(kvs, fr, geom, full) {
         Ok(h) => st.outcome(h),
+        Err(msg) if front::is_usage_skip(&msg) => st.count("builds_skipped_because_the_builder_accepted_a_call_it_must_reject", 1),
         Err(msg) => {
             if kvs.len() > 5000 {
                 rep.violation(format!("{} keys from {} {:?} {:?}", kvs.len(), key_str(&kvs[0].0), fr, geom), msg, json!({"big_dense": true, "front": format!("{:?}", fr), "geom": [geom.0, geom.1]}));
